@@ -417,12 +417,68 @@ def rule_merge_and_dead(ctx):
                f"base_i_ka = {ast.unparse(st.value)[:80] if st is not None else '?'}" if ok else
                "the base current of i measurements is not derived from net.bus.vn_kv of the measured bus (rated winding voltages differ from the "
                "bus voltage level whenever a transformer is not rated exactly at the nominal voltages)", fm.loc(st) if st is not None else fm.loc())
+    rule_branch_map_and_bound(ctx)
     RD = "DEAD-STORE"
     ctx.rule(RD, "no function of the estimation package assigns a local that is never read (a clamp, filter or copy whose result is lost "
                  "while the unmodified object is used)")
     fis = [f for mn in ctx.repo.module_names() if mn.startswith("pandapower.estimation") for f in ctx.repo.module(mn).functions.values()]
     if _lints.dead_local_stores(ctx, RD, fis) < 60:
         ctx.fail("DEAD-STORE: fewer than 60 functions found in pandapower.estimation")
+
+
+def rule_branch_map_and_bound(ctx):
+    from ppsa.astutil import inline_locals
+    R = "BRANCH-LABEL"
+    ctx.rule(R, "_get_branch_map keys the branch lookup by the index labels of the element table (net.<element>.index), because the "
+                "measurement table refers to branches by label: a positional key attaches the measurements of a line to another line "
+                "whenever the table index is not 0..n-1")
+    fi = ctx.repo.try_func(f"{PPC}:_get_branch_map")
+    if fi is None:
+        ctx.fail("anchor vanished: _get_branch_map")
+    else:
+        rets = [n for n in ast.walk(fi.node) if isinstance(n, ast.Return) and n.value is not None]
+        if not rets:
+            ctx.fail("_get_branch_map: no return")
+        for r in rets:
+            v = inline_locals(fi.node, r.value)
+            idx = None
+            if isinstance(v, ast.Call):
+                idx = next((k.value for k in v.keywords if k.arg == "index"), v.args[1] if len(v.args) > 1 else None)
+            txt = norm(idx, 200).replace('"', "'") if idx is not None else ""
+            ok = idx is not None and ".index" in txt and ("getattr(net,element_type)" in txt.replace(" ", "") or "net[element_type]" in txt)
+            ctx.ob(R, f"{PPC}::_get_branch_map::series-index", ok,
+                   f"lookup keyed by `{txt[:70]}`" if ok else
+                   f"the lookup is keyed by `{txt[:90] or norm(r.value, 90)}`, which is not taken from the index labels of net[element_type]", fi.loc(r))
+    R2 = "OBS-BOUND"
+    ctx.rule(R2, "check_observability rejects a measurement set only when it has fewer entries than states (2*n_bus - n_slack): an "
+                 "exactly determined observable set is solvable and must pass")
+    fo = ctx.repo.try_func("pandapower.estimation.algorithm.base:BaseAlgorithm.check_observability")
+    if fo is None:
+        ctx.fail("anchor vanished: BaseAlgorithm.check_observability")
+        return
+    guards = [n for n in ast.walk(fo.node) if isinstance(n, ast.If) and any(isinstance(x, ast.Raise) for x in ast.walk(n))]
+    if not guards:
+        ctx.fail("check_observability: no raising guard found")
+    for g in guards:
+        t = g.test
+        neg = False
+        if isinstance(t, ast.UnaryOp) and isinstance(t.op, ast.Not):
+            t, neg = t.operand, True
+        ok, why = False, f"unrecognised guard `{norm(g.test, 80)}`"
+        if isinstance(t, ast.Compare) and len(t.ops) == 1:
+            left_is_count = "len(" in norm(t.left)
+            op = type(t.ops[0])
+            # normalise to: raise when count OP required
+            flip = {ast.Lt: ast.Gt, ast.Gt: ast.Lt, ast.LtE: ast.GtE, ast.GtE: ast.LtE}
+            inv = {ast.Lt: ast.GtE, ast.GtE: ast.Lt, ast.Gt: ast.LtE, ast.LtE: ast.Gt}
+            if not left_is_count and "len(" in norm(t.comparators[0]):
+                op = flip.get(op, op)
+            if neg:
+                op = inv.get(op, op)
+            ok = op is ast.Lt
+            why = "raises only for count < required" if ok else \
+                f"`{norm(g.test, 80)}` also rejects a measurement set with exactly as many entries as states"
+        ctx.ob(R2, "pandapower.estimation.algorithm.base::BaseAlgorithm.check_observability::bound", ok, why, fo.loc(g))
 
 
 def run(ctx):
@@ -447,6 +503,17 @@ def run(ctx):
         ctx.fail(f"stub resolver control failed: {v1} {v2} {v3}")
     rule_meas_order(ctx)
     rule_merge_and_dead(ctx)
+
+
+def variants_r5(V):
+    pc = "pandapower/estimation/ppc_conversion.py"
+    ba = "pandapower/estimation/algorithm/base.py"
+    return [
+        V("branch map keyed by position", pc, replace_once("element_indices = getattr(net, element_type).index.values[mask]", "element_indices = np.flatnonzero(mask)"), "BRANCH-LABEL"),
+        V("twin: branch map through the item access", pc, replace_once("element_indices = getattr(net, element_type).index.values[mask]", "element_indices = net[element_type].index.to_numpy()[mask]"), None),
+        V("exactly determined sets rejected", ba, replace_once("if len(z) < measurements_available:", "if len(z) <= measurements_available:"), "OBS-BOUND"),
+        V("twin: bound written the other way round", ba, replace_once("if len(z) < measurements_available:", "if not measurements_available <= len(z):"), None),
+    ]
 
 
 def variants(repo):
@@ -493,4 +560,4 @@ def variants(repo):
                 "imag_meas:current-only"),
         Variant("twin: hx local renamed", p,
                 lambda s: s.replace("Qte", "Q_to_est"), None),
-    ]
+    ] + variants_r5(Variant)
